@@ -651,3 +651,8 @@ V('C06', 'flags-default-p2sh', EVAL, 'def VerifyScript(scriptSig, scriptPubKey, 
 V('C07', 'benign-flags-default-frozenset', EVAL, 'def EvalScript(stack, scriptIn, txTo, inIdx, flags=()):', 'def EvalScript(stack, scriptIn, txTo, inIdx, flags=frozenset()):', 'SILENT')
 V('C03', 'anyonecanpay-by-threshold', SCRIPT, '    if hashtype & SIGHASH_ANYONECANPAY:', '    if hashtype >= SIGHASH_ANYONECANPAY:', 'C03.D1', scope='RawSignatureHash')
 V('C13', 'trim-drops-last-byte', SCRIPT, 'while len(c1) > len(c2):\n        if c1.pop(0) > 0:', 'while len(c1) > len(c2):\n        if c1.pop() > 0:', 'UNDECIDED:C13.Z3', scope='CompareBigEndian')
+V('C03', 'none-loop-ordering-guard', SCRIPT, "        for i in range(len(txtmp.vin)):\n            if i != inIdx:\n                txtmp.vin[i].nSequence = 0\n\n    elif", "        for i in range(len(txtmp.vin)):\n            if i > inIdx:\n                txtmp.vin[i].nSequence = 0\n\n    elif", 'C03.D1', scope='RawSignatureHash')
+V('C03', 'none-loop-identity-guard', SCRIPT, "        for i in range(len(txtmp.vin)):\n            if i != inIdx:\n                txtmp.vin[i].nSequence = 0\n\n    elif", "        for i in range(len(txtmp.vin)):\n            if i is not inIdx:\n                txtmp.vin[i].nSequence = 0\n\n    elif", 'C03.D1', scope='RawSignatureHash')
+V('C06', 'nulldummy-compared-with-int', EVAL, "if stack[-1] != b'':", "if stack[-1] != 0:", 'C06.L1', scope='_CheckMultiSig')
+V('C15', 'level-offset-assigned', CORE, "            j += size", "            j = size", 'C15.M2', scope='CBlock.build_merkle_tree_from_txids')
+V('C02', 'witness-null-asks-last-entry', CORE, "if not self.vtxinwit[n].is_null(): return False", "if not self.vtxinwit[-1].is_null(): return False", 'C02.W1', scope='CTxWitness.is_null')
